@@ -14,6 +14,7 @@ import (
 	"runtime"
 	"runtime/debug"
 	"strings"
+	"sync/atomic"
 	"time"
 	_ "unsafe"
 )
@@ -87,8 +88,21 @@ type vState struct {
 
 var vS *vState
 
+// vRacing: a racer is running (TestVerifRace): there is no replay vector and
+// several goroutines may ask for inputs; each request gets the next value of a
+// shared counter (distinct, non-zero, truncated to the width).
+var vRacing bool
+var vRaceCtr uint64
+
 func vNext(name string, width int) vInputVal {
 	if vS == nil {
+		if vRacing {
+			n := atomic.AddUint64(&vRaceCtr, 1)
+			if width < 64 {
+				n &= 1<<uint(width) - 1
+			}
+			return vInputVal{Name: name, Width: width, Val: n}
+		}
 		panic("verif: v* input requested outside a replay")
 	}
 	for vS.pos < len(vS.inputs) && (strings.HasPrefix(stripIdx(vS.inputs[vS.pos].Name), "clk_") || strings.HasPrefix(stripIdx(vS.inputs[vS.pos].Name), "aux_")) {
